@@ -5,3 +5,5 @@
 mod stubs;
 #[cfg(kani)]
 mod c42;
+#[cfg(kani)]
+mod c43;
